@@ -6,8 +6,9 @@
 //   b <x> <y>         concatPaths(x,y) / relativePath(x,y) / hasPrefix(x,y.c_str()) / hasSuffix(x,y.c_str())
 //                     (the pattern of hasPrefix/hasSuffix is a C string: y up to its first NUL); the oracle also
 //                     runs hasPrefix/hasSuffix on std::vector<char>, std::deque<char>, std::list<char>, std::string_view
-//   f <fmt> <arg>...  formatString(fmt, args...);  arg = d:<int> | l:<long> | u:<unsigned> | c:<char code> |
-//                     w:<wint_t code> | s:<count>:<piece>;  answer = the text or ERR:Exception (conversion error)
+//   f <fmt> <arg>...  formatString(fmt, args...);  arg = d:<int> | l:<long> | q:<long long> | u:<unsigned> | z:<size_t> |
+//                     c:<char code> | w:<wint_t code> | s:<count>:<piece>;  answer = the text or ERR:Exception
+//                     (conversion error).  Up to six int / const char* arguments, or up to two of any type.
 //   tp <p> <r> / tq <p> <0|1> <r> / tc <base> <p> <r>
 //                     one row of the example tables in the documentation of processPath / prettyPath / concatPaths
 //                     (written by tools/checks/c18.py from the current path.hh): answer = what the code returns, the
@@ -17,6 +18,7 @@
 //
 // generator modes (--mode): u / b = exhaustive enumeration over the alphabet "/.ab" up to --maxlen
 // (case i is the i-th string resp. pair), ur / br = random longer paths and related pairs, ul = long random paths,
+// uh = paths of 76 000 - 80 000 characters (thorough tier),
 // bl = long strings around the formatString buffer size for hasPrefix/hasSuffix, f = format lengths around
 // --bufsize (the stack buffer size read from the current stringutility.hh), F = huge widths.
 #include <config.h>
@@ -25,6 +27,7 @@
 #include <climits>
 #include <clocale>
 #include <cstdio>
+#include <cstring>
 #include <cwchar>
 #include <deque>
 #include <list>
@@ -191,6 +194,20 @@ static Result execU(const string& p) {
   if (dir != edir) fail(res, string("pathIndicatesDirectory = ") + (dir ? "true" : "false"));
   if (pa != expectPretty(d, edir)) fail(res, "prettyPath(p) = " + enc(pa) + ", expected " + enc(expectPretty(d, edir)));
 
+  // second use: the outputs fed back in (theorems pretty_idempotent, pretty_auto_stable, process_pretty)
+  if (Dune::prettyPath(p0, false) != p0 || Dune::prettyPath(p1, true) != p1)
+    fail(res, "prettyPath not idempotent: " + enc(p0) + " -> " + enc(Dune::prettyPath(p0, false)) + ", " + enc(p1) + " -> " + enc(Dune::prettyPath(p1, true)));
+  if (Dune::prettyPath(p0) != p0 || Dune::prettyPath(p1) != p1 || Dune::prettyPath(pa) != pa)
+    fail(res, "prettyPath(q) changes a pretty-printed q: " + enc(p0) + " -> " + enc(Dune::prettyPath(p0)) + ", " + enc(p1) + " -> " + enc(Dune::prettyPath(p1)));
+  if (Dune::processPath(p0) != r || Dune::processPath(p1) != r)
+    fail(res, "processPath(prettyPath(p)) differs from processPath(p) = " + enc(r));
+  {
+    string same;
+    bool sthrew = false;
+    try { same = Dune::relativePath(p, r); } catch (Dune::NotImplemented&) { sthrew = true; }
+    if (sthrew || !same.empty()) fail(res, "relativePath(p, processPath(p)) is not the empty path: " + (sthrew ? string("ERR:NotImplemented") : enc(same)));
+  }
+
   if (r != p + "/") stat("u_rewritten");
   if (d.ups > 0) stat("u_leading_ups");
   if (p.find("..") != string::npos && d.ups == 0) stat("u_dotdot_resolved_or_name");
@@ -224,6 +241,11 @@ static Result execB(const string& x, const string& y) {
              (hs ? "true" : "false");
 
   if (c != expectConcat(x, y)) fail(res, "concatPaths = " + enc(c) + ", table says " + enc(expectConcat(x, y)));
+  // a two-step history: joining three paths gives the same text whichever pair is joined first (theorem concat_assoc)
+  for (const string* z : {&x, &y, &c}) {
+    const string l = Dune::concatPaths(c, *z), rr = Dune::concatPaths(x, Dune::concatPaths(y, *z));
+    if (l != rr) fail(res, "concatPaths not associative with third operand " + enc(*z) + ": " + enc(l) + " vs " + enc(rr));
+  }
   const string pat = cstrOf(y);
   const bool ep = plainPrefix(x, pat), es = plainSuffix(x, pat);
   if (hp != ep) fail(res, string("hasPrefix = ") + (hp ? "true" : "false"));
@@ -266,6 +288,9 @@ static Result execB(const string& x, const string& y) {
       if (k > 0) stat("rel_common_components");
       if (k < B.size() && k < P.size() && (plainPrefix(B[k], P[k]) || plainPrefix(P[k], B[k]))) stat("rel_component_is_prefix_of_other");
     }
+    // string-level round trip (theorem relative_roundtrip_sanitized)
+    if (Dune::processPath(Dune::concatPaths(x, rel)) != Dune::processPath(y))
+      fail(res, "processPath(concatPaths(base, relativePath(base,p))) = " + enc(Dune::processPath(Dune::concatPaths(x, rel))) + " differs from processPath(p)");
     if (rel.find("../") == 0) stat("rel_goes_up");
     if (rel.empty()) stat("rel_empty");
   }
@@ -277,15 +302,16 @@ static Result execB(const string& x, const string& y) {
 
 // ---- formatString ---------------------------------------------------------------------------
 struct FArg {
-  char kind = 'd';  // d int, l long, u unsigned, c char, w wint_t, s const char*
+  char kind = 'd';  // d int, l long, q long long, u unsigned, z size_t, c char, w wint_t, s const char*
   long long i = 0;
+  unsigned long long z = 0;
   string s;
 };
-// up to four int / const char* arguments
+// up to six int / const char* arguments
 template <class... A>
 static string callFmt(const string& f, const std::vector<FArg>& a, size_t k, const A&... done) {
   if (k == a.size()) return Dune::formatString(f, done...);
-  if constexpr (sizeof...(A) < 4) {
+  if constexpr (sizeof...(A) < 6) {
     if (a[k].kind == 'd') return callFmt(f, a, k + 1, done..., (int)a[k].i);
     if (a[k].kind == 's') return callFmt(f, a, k + 1, done..., a[k].s.c_str());
   }
@@ -299,6 +325,8 @@ static string callFmt2(const string& f, const std::vector<FArg>& a, size_t k, co
     switch (a[k].kind) {
       case 'd': return callFmt2(f, a, k + 1, done..., (int)a[k].i);
       case 'l': return callFmt2(f, a, k + 1, done..., (long)a[k].i);
+      case 'q': return callFmt2(f, a, k + 1, done..., (long long)a[k].i);
+      case 'z': return callFmt2(f, a, k + 1, done..., (std::size_t)a[k].z);
       case 'u': return callFmt2(f, a, k + 1, done..., (unsigned)a[k].i);
       case 'c': return callFmt2(f, a, k + 1, done..., (char)a[k].i);
       case 'w': return callFmt2(f, a, k + 1, done..., (wint_t)a[k].i);
@@ -308,7 +336,8 @@ static string callFmt2(const string& f, const std::vector<FArg>& a, size_t k, co
   throw std::runtime_error("argument list outside the harness's dispatch table");
 }
 enum IdealKind { TEXT, CONVERROR, OUTSIDE };
-// the printf subset, written out by hand:  %%  %[-][0][width]{d,ld,u,x}  %[-][width]{s,c,lc}
+// the printf subset, written out by hand:
+//   %%  %[-][+][0][width|*]{d,ld,lld}  %[-][0][width|*]{u,zu,x,X,o}  %[-][width|*][.prec]s  %[-][width|*]{c,lc}
 static IdealKind idealFormat(const string& f, const std::vector<FArg>& a, string& out) {
   out.clear();
   size_t k = 0;
@@ -317,37 +346,69 @@ static IdealKind idealFormat(const string& f, const std::vector<FArg>& a, string
     if (f[i] != '%') { out.push_back(f[i]); continue; }
     ++i;
     if (i < f.size() && f[i] == '%') { out.push_back('%'); continue; }
-    bool left = false, zero = false;
+    bool left = false, zero = false, plus = false, hasPrec = false;
     if (i < f.size() && f[i] == '-') { left = true; ++i; }
+    if (i < f.size() && f[i] == '+') { plus = true; ++i; }
     if (i < f.size() && f[i] == '0') { zero = true; ++i; }
-    size_t w = 0;
-    while (i < f.size() && f[i] >= '0' && f[i] <= '9') { w = w * 10 + (size_t)(f[i] - '0'); ++i; }
+    size_t w = 0, prec = 0;
+    if (i < f.size() && f[i] == '*') {  // the width is the next argument, an int; negative = '-' flag and |width|
+      if (k >= a.size() || a[k].kind != 'd') return OUTSIDE;
+      long long v = a[k].i;
+      if (v < 0) { left = true; v = -v; }
+      w = (size_t)v;
+      ++k;
+      ++i;
+      stat("f_star_width");
+    } else
+      while (i < f.size() && f[i] >= '0' && f[i] <= '9') { w = w * 10 + (size_t)(f[i] - '0'); ++i; }
+    if (i < f.size() && f[i] == '.') {
+      hasPrec = true;
+      ++i;
+      while (i < f.size() && f[i] >= '0' && f[i] <= '9') { prec = prec * 10 + (size_t)(f[i] - '0'); ++i; }
+    }
     if (i >= f.size() || k >= a.size()) return OUTSIDE;
     string body, sign;
-    auto decimal = [&](unsigned long long v) {
+    auto radix = [&](unsigned long long v, unsigned base, const char* digits) {
       if (v == 0) body = "0";
-      while (v > 0) { body.insert(body.begin(), (char)('0' + v % 10)); v /= 10; }
+      while (v > 0) { body.insert(body.begin(), digits[v % base]); v /= base; }
     };
+    auto rest = [&](const char* t) { return f.compare(i, std::strlen(t), t) == 0; };
     const char kind = a[k].kind;
-    if ((f[i] == 'd' && kind == 'd') || (f[i] == 'l' && i + 1 < f.size() && f[i + 1] == 'd' && kind == 'l')) {
-      if (f[i] == 'l') ++i;
+    bool isSigned = false, isUnsigned = false;
+    if ((rest("d") && kind == 'd') || (rest("ld") && kind == 'l') || (rest("lld") && kind == 'q')) {
+      i += kind == 'd' ? 0 : kind == 'l' ? 1 : 2;
+      isSigned = true;
       long long v = a[k].i;
-      if (v < 0) { sign = "-"; decimal(0ull - (unsigned long long)v); } else decimal((unsigned long long)v);
-    } else if (f[i] == 'u' && kind == 'u') {
-      decimal((unsigned long long)a[k].i);
-    } else if (f[i] == 'x' && kind == 'u') {
-      unsigned long long v = (unsigned long long)a[k].i;
-      if (v == 0) body = "0";
-      while (v > 0) { body.insert(body.begin(), "0123456789abcdef"[v & 15]); v >>= 4; }
-    } else if (f[i] == 's' && kind == 's' && !zero) {
-      body = a[k].s;
-    } else if (f[i] == 'c' && kind == 'c' && !zero && a[k].i >= 1 && a[k].i <= 255) {
+      if (v < 0) { sign = "-"; radix(0ull - (unsigned long long)v, 10, "0123456789"); }
+      else { if (plus) sign = "+"; radix((unsigned long long)v, 10, "0123456789"); }
+    } else if (rest("u") && kind == 'u') {
+      isUnsigned = true;
+      radix((unsigned long long)a[k].i, 10, "0123456789");
+    } else if (rest("zu") && kind == 'z') {
+      ++i;
+      isUnsigned = true;
+      radix(a[k].z, 10, "0123456789");
+    } else if (rest("x") && kind == 'u') {
+      isUnsigned = true;
+      radix((unsigned long long)a[k].i, 16, "0123456789abcdef");
+    } else if (rest("X") && kind == 'u') {
+      isUnsigned = true;
+      radix((unsigned long long)a[k].i, 16, "0123456789ABCDEF");
+    } else if (rest("o") && kind == 'u') {
+      isUnsigned = true;
+      radix((unsigned long long)a[k].i, 8, "01234567");
+    } else if (rest("s") && kind == 's' && !zero && !plus) {
+      body = hasPrec ? a[k].s.substr(0, prec) : a[k].s;
+      if (hasPrec) stat(prec < a[k].s.size() ? "f_precision_truncates" : "f_precision_idle");
+    } else if (rest("c") && kind == 'c' && !zero && !plus && !hasPrec && a[k].i >= 1 && a[k].i <= 255) {
       body = string(1, (char)a[k].i);
-    } else if (f[i] == 'l' && i + 1 < f.size() && f[i + 1] == 'c' && kind == 'w' && !zero && a[k].i >= 1) {
+    } else if (rest("lc") && kind == 'w' && !zero && !plus && !hasPrec && a[k].i >= 1) {
       ++i;
       if (a[k].i >= 128) convError = true;  // the classic locale cannot encode it: snprintf returns -1 (EILSEQ)
       else body = string(1, (char)a[k].i);
     } else return OUTSIDE;
+    if ((isSigned || isUnsigned) && hasPrec) return OUTSIDE;
+    if (isUnsigned && plus) return OUTSIDE;
     ++k;
     if (left) zero = false;
     size_t len = body.size() + sign.size();
@@ -372,7 +433,13 @@ static Result execF(const std::vector<string>& w) {
   for (size_t i = 2; i < w.size(); ++i) {
     auto parts = split(w[i], ':');
     FArg a;
-    if (parts.size() == 2 && parts[0].size() == 1 && string("dlucw").find(parts[0][0]) != string::npos) {
+    if (parts.size() == 2 && parts[0] == "z") {
+      if (parts[1].empty() || parts[1].size() > 20 || parts[1].find_first_not_of("0123456789") != string::npos) return Result{"bad-op", "FAIL malformed size_t argument"};
+      if (parts[1].size() == 20 && parts[1] > "18446744073709551615") return Result{"bad-op", "FAIL size_t argument out of range"};
+      a.kind = 'z';
+      a.z = std::stoull(parts[1]);
+      onlyDS = false;
+    } else if (parts.size() == 2 && parts[0].size() == 1 && string("dlqucw").find(parts[0][0]) != string::npos) {
       a.kind = parts[0][0];
       a.i = std::stoll(parts[1]);
       if (a.kind == 'd' && (a.i < INT_MIN || a.i > INT_MAX)) return Result{"bad-op", "FAIL int argument out of range"};
@@ -390,7 +457,8 @@ static Result execF(const std::vector<string>& w) {
     stat(string("f_arg_") + a.kind);
     args.push_back(a);
   }
-  if ((onlyDS && args.size() > 4) || (!onlyDS && args.size() > 2)) return Result{"bad-op", "FAIL too many arguments"};
+  if ((onlyDS && args.size() > 6) || (!onlyDS && args.size() > 2)) return Result{"bad-op", "FAIL too many arguments"};
+  stat("f_nargs_" + std::to_string(args.size()));
   string ideal;
   const IdealKind kind = idealFormat(fmt, args, ideal);
   if (kind == OUTSIDE) return Result{"bad-op", "FAIL format outside the modelled subset"};
@@ -543,6 +611,13 @@ static string longPath(Rng& r) {  // hundreds of components, deep "../" runs, lo
   }
   return s;
 }
+static string hugePath(Rng& r) {  // longer than any 16-bit index: 76 000 - 80 000 characters
+  const size_t target = (size_t)r.range(76000, 80000);  // still > 65536 after the "//" and "/./" are gone (about 10 %)
+  string s = r.coin(1, 3) ? "/" : "";
+  static const std::vector<string> C = {"a/", "../", "./", "//", "bb/", "a.b/", ".../", "a/", "lib/", "a/", "../", "./", "b/", "bb/", "a.b/", ".../", "a/", "lib/"};
+  while (s.size() < target) s += r.pick(C);
+  return s;
+}
 static string longString(Rng& r, size_t n) {
   string s;
   for (size_t i = 0; i < n; ++i) s.push_back("ab/.ab"[r.below(6)]);
@@ -577,7 +652,7 @@ static string genFormat(Rng& r, long i) {
     a << "s:" << len / (long)piece.size() << ":" << enc(piece);
     return a.str();
   };
-  switch (r.below(12)) {
+  switch (r.below(19)) {
     case 0: os << enc("%s") << " " << strArg(T); break;
     case 1: {
       long v = r.coin() ? r.range(-99999, 99999) : r.range(-9, 9);
@@ -644,6 +719,66 @@ static string genFormat(Rng& r, long i) {
       else os << enc("%s%lc") << " " << strArg(std::max<long>(0, T - 1)) << " w:" << c;
       break;
     }
+    case 11: {  // `*`: the width is an argument (negative = left-justified)
+      long v = r.range(-1000, 1000);
+      const bool neg = r.coin(1, 3) && T > 0;
+      string flags = neg ? "" : r.coin(1, 3) ? "-" : r.coin(1, 3) ? "0" : r.coin(1, 3) ? "+" : "";
+      if (r.coin(2, 3)) os << enc("%" + flags + "*d") << " d:" << (neg ? -T : T) << " d:" << v;
+      else {
+        long k = T > 0 ? r.range(0, T) : 0;
+        os << enc("%s%" + flags + "*d") << " " << strArg(k) << " d:" << (neg ? -(T - k) : T - k) << " d:" << v;
+      }
+      break;
+    }
+    case 12: {  // `*` with a string, and two stars
+      if (r.coin()) os << enc(string("%") + (r.coin(1, 3) ? "-" : "") + "*s") << " d:" << (r.coin(1, 4) ? -T : T) << " " << strArg(r.range(0, 5));
+      else {
+        long k = T > 0 ? r.range(0, T) : 0;
+        os << enc("%*d%*s") << " d:" << (r.coin(1, 4) ? -k : k) << " d:" << r.range(-9, 9) << " d:" << (T - k) << " " << strArg(r.range(0, 3));
+      }
+      break;
+    }
+    case 13: {  // precision: the string argument is longer than what is printed
+      long extra = r.coin(1, 4) ? 0 : r.range(1, 40);
+      if (r.coin()) os << enc("%." + std::to_string(T) + "s") << " " << strArg(T + extra);
+      else {
+        long k = T > 0 ? r.range(0, T) : 0;  // printed part k, padded to T
+        os << enc(string("%") + (r.coin() ? "-" : "") + W(T) + "." + std::to_string(k) + "s") << " " << strArg(k + extra);
+      }
+      break;
+    }
+    case 14: {  // the '+' flag
+      long v = r.coin(1, 6) ? 0 : r.coin(1, 6) ? (r.coin() ? INT_MIN : INT_MAX) : r.range(-1000, 1000);
+      string flags = r.coin(1, 3) ? "-+" : r.coin() ? "+0" : "+";
+      if (r.coin()) os << enc("%" + flags + W(T) + "d") << " d:" << v;
+      else os << enc("%+ld%s") << " l:" << v << " " << strArg(std::max<long>(0, T - (long)std::to_string(v).size() - (v >= 0 ? 1 : 0)));
+      break;
+    }
+    case 15: {  // long long and size_t
+      if (r.coin()) {
+        long long v = r.coin(1, 4) ? (r.coin() ? LLONG_MIN : LLONG_MAX) : (long long)r.range(-4000000000000l, 4000000000000l);
+        if (r.coin()) os << enc("%" + string(r.coin() ? "0" : r.coin() ? "-" : "") + W(T) + "lld") << " q:" << v;
+        else os << enc("%s%lld") << " " << strArg(std::max<long>(0, T - (long)std::to_string(v).size())) << " q:" << v;
+      } else {
+        unsigned long long v = r.coin(1, 4) ? ULLONG_MAX : r.coin() ? (unsigned long long)r.range(0, 5000) : (unsigned long long)r.range(0, 4000000000000000000l) * 4ull + r.below(4);
+        if (r.coin()) os << enc("%" + string(r.coin() ? "0" : r.coin() ? "-" : "") + W(T) + "zu") << " z:" << v;
+        else os << enc("%zu%s") << " z:" << v << " " << strArg(std::max<long>(0, T - (long)std::to_string(v).size()));
+      }
+      break;
+    }
+    case 16: {  // upper-case hexadecimal and octal
+      unsigned long v = r.coin(1, 4) ? 4294967295ul : (unsigned long)r.range(0, r.coin() ? 300 : 4294967295l);
+      const char* conv = r.coin() ? "X" : "o";
+      if (r.coin()) os << enc("%" + string(r.coin(1, 3) ? "-" : r.coin() ? "0" : "") + W(T) + conv) << " u:" << v;
+      else os << enc(string("%s%") + conv) << " " << strArg(std::max<long>(0, T - 11)) << " u:" << v;
+      break;
+    }
+    case 17: {  // five and six arguments
+      long k = T / 4;
+      if (r.coin()) os << enc("%s%d%s%d%s") << " " << strArg(k) << " d:" << r.range(-99, 99) << " " << strArg(k) << " d:" << r.range(0, 9) << " " << strArg(std::max<long>(0, T - 2 * k - 4));
+      else os << enc("%d%s%d%s%d%s") << " d:" << r.range(0, 9) << " " << strArg(k) << " d:" << r.range(-9, 9) << " " << strArg(k) << " d:" << r.range(10, 99) << " " << strArg(std::max<long>(0, T - 2 * k - 5));
+      break;
+    }
     default: {  // conversion error behind a text that already fills the stack buffer
       os << enc("%s%lc") << " " << strArg(T) << " w:" << r.pick(std::vector<long>{128, 255, 8364});
       break;
@@ -669,6 +804,7 @@ std::string gen(Rng& r, long i, const Args& a) {
   }
   if (mode == "ur") return "u " + enc(randomPath(r));
   if (mode == "ul") return "u " + enc(longPath(r));
+  if (mode == "uh") { stat("u_huge"); return "u " + enc(hugePath(r)); }
   if (mode == "F") {
     // widths beyond what int can hold must throw; --big 1 adds the boundary INT_MAX-1, INT_MAX (2 GiB results)
     static const std::vector<string> W = {"2147483648", "2147483649", "4294967296", "4294967303", "99999999999", "3000000", "70000"};
